@@ -271,6 +271,12 @@ def finish(ctx):
         print("KNOWN-FINDING: property=%s %s" % (ctx.prop, k["what"]))
     rc = 0
     nviol = 0
+    import glob
+    for old in glob.glob(os.path.join(REPLAY, "%s_*.json" % ctx.prop)):
+        try:
+            os.remove(old)
+        except OSError:
+            pass
     if unknown:
         by_sig = {}
         for f in unknown:
